@@ -67,7 +67,10 @@ func findSliceLength(v ir.Value) int {
 		} else {
 			switch vv := v.X.(type) {
 			case *ir.Alloc:
-				high = int(typeutil.Dereference(vv.Type()).Underlying().(*types.Array).Len())
+				// The array type may be a type parameter; we only know its length if it has a core type.
+				if arr, ok := typeutil.CoreType(typeutil.Dereference(vv.Type())).(*types.Array); ok {
+					high = int(arr.Len())
+				}
 			case *ir.Slice:
 				high = findSliceLength(vv)
 			}
@@ -117,7 +120,19 @@ func flagSliceLens(pass *analysis.Pass) {
 					// we know the argument has to have even length.
 					// now let's try to find its length
 					if n := findSliceLength(arg); n > -1 && n%2 != 0 {
-						src := call.Source().(*ast.CallExpr).Args[argi]
+						var astcall *ast.CallExpr
+						switch source := call.Source().(type) {
+						case *ast.CallExpr:
+							astcall = source
+						case *ast.DeferStmt:
+							astcall = source.Call
+						case *ast.GoStmt:
+							astcall = source.Call
+						}
+						if astcall == nil || argi >= len(astcall.Args) {
+							continue
+						}
+						src := astcall.Args[argi]
 						sig := call.Common().Signature()
 						var label string
 						if argi == sig.Params().Len()-1 && sig.Variadic() {
